@@ -2,6 +2,8 @@
 //! `mc check <ID> <quick|thorough>` | `mc worker ..` (internal) | `mc replay <file>` | `mc selftest` | `mc list`
 mod check;
 mod ops;
+mod progscene;
+mod trace;
 mod props;
 mod scenes;
 mod selftest;
